@@ -2,7 +2,7 @@
 import os
 
 from . import core
-from .rules import stdio, cert, mark, exact, optstore, inval, idx, atomic, own, tokens, idxclass, copy, pair, structfree, buf, div, counter, sentinel, appendinit, verdict, basismap, zerotol, escape, lenclass, djsym, ndet, useb4check, norms, opencheck, shell, esolver, errlost, rescan, certdep, neverset
+from .rules import stdio, cert, mark, exact, optstore, inval, idx, atomic, own, tokens, idxclass, copy, pair, structfree, buf, div, counter, sentinel, appendinit, verdict, basismap, zerotol, escape, lenclass, djsym, ndet, useb4check, norms, opencheck, shell, esolver, errlost, rescan, certdep, neverset, fmt
 from .effects import Effects
 
 FIX = os.path.join(os.path.dirname(os.path.abspath(__file__)), "fixtures")
@@ -412,7 +412,9 @@ PROPS = {
                                                                                  ("mpq_QSread_prob", "mpq_QSget_prob", "mpq_QSread_basis", "mpq_QSread_and_load_basis")]))),
                   lambda prog, tier: div.run(prog), lambda prog, tier: counter.run(prog),
                   lambda prog, tier: errlost.run(prog, scope_funcs=set(prog.reachable([prog.require_fn(r).key for r in
-                                                                                     ("mpq_QSread_prob", "mpq_QSget_prob", "mpq_QSread_basis", "mpq_QSread_and_load_basis")])), floor=60)],
+                                                                                     ("mpq_QSread_prob", "mpq_QSget_prob", "mpq_QSread_basis", "mpq_QSread_and_load_basis")])), floor=60),
+                  lambda prog, tier: fmt.run(prog, scope=lambda f, _r=set(prog.reachable([prog.require_fn(r).key for r in
+                                                                                          ("mpq_QSread_prob", "mpq_QSget_prob", "mpq_QSread_basis", "mpq_QSread_and_load_basis")])): f.key in _r, floor=200)],
         "technique": "census and classification of buffer-writing calls in the reader call-graph closures (destination array sizes from the "
                      "type-resolved program, format-length bounds); dominance analysis for zero tests of GMP divisors and for counter guards",
         "explanation": "Decides three structural clauses of C11 for every function reachable from the LP/MPS/basis readers: (R-BUF) every "
@@ -493,6 +495,7 @@ PROPS = {
                   lambda prog, tier: lenclass.run(prog),
                   lambda prog, tier: lenclass.run_capacity(prog),
                   lambda prog, tier: neverset.run(prog),
+                  lambda prog, tier: fmt.run(prog),
                   lambda prog, tier: appendinit.run(prog),
                   lambda prog, tier: counter.run(prog),
                   lambda prog, tier: useb4check.run(prog),
@@ -511,7 +514,9 @@ PROPS = {
                        "array's own dimension; (R-CAPACITY) an array that some site sizes by a capacity field (rowsize / colsize / structsize) is "
                        "never allocated with only the current count unless the capacity is set to that count alongside (the appending edit "
                        "functions write slot [count] whenever count < capacity); (R-NEVERSET) every scalar field of a library record that live "
-                       "code reads is written somewhere in the program (a field that is only read holds allocator garbage); (R-APPENDINIT) slots appended by the add-row / add-column paths are initialised before the "
+                       "code reads is written somewhere in the program (a field that is only read holds allocator garbage); (R-FMT) the format argument of every printf-like call "
+                       "(the set of such functions is computed from the declarations) is a literal or a forwarded format parameter, "
+                       "never data; (R-APPENDINIT) slots appended by the add-row / add-column paths are initialised before the "
                        "dimension is published; (R-CNT) basis counters are bounded; (R-NDET) the reproducibility sentence: constant seeds, "
                        "no clock / pid / libc randomness outside the timing wrappers, time reaches a branch only at the documented time "
                        "limit, no relational pointer comparison across objects and no pointer-to-integer value outside the slab allocator.",
@@ -534,7 +539,8 @@ PROPS = {
                   lambda prog, tier: shell.run(prog, shared_eff(prog)),
                   lambda prog, tier: exact.run(prog, {"CERT": {"roots": ["QSexact_print_sol"], "closure": False}, "TESTS": {"roots": ["QSexact_print_sol"], "closure": True}}),
                   lambda prog, tier: idxclass.run(prog, scope_units=("qsopt_ex/exact.c",), rule="R-IDXCLASS"),
-                  lambda prog, tier: buf.run(prog, scope_units=("esolver/",), floor=2)],
+                  lambda prog, tier: buf.run(prog, scope_units=("esolver/",), floor=2),
+                  lambda prog, tier: fmt.run(prog, scope=lambda f: f.unit.startswith("esolver/") or f.unit.endswith("qsopt_ex/exact.c"), floor=40)],
         "technique": "path-sensitive typestate dataflow over main's CFG for the exit status (error recorded => non-zero return); "
                      "NULL-test dominance for file handles; table agreement between status constants and the words written; sibling "
                      "agreement of the four non-zero filters of QSexact_print_sol; lossy-conversion sink census; index-space typing; "
